@@ -318,7 +318,7 @@ def check(run):
     core.decide(run, it_t, IMPORTS, "accept_C03_traj", oracle_traj, shard=60)
     core.decide(run, it_a, IMPORTS, "accept_C03_apply", oracle_apply, shard=40)
     # (d)
-    ns_ = 100 if run.tier == "quick" else 2000
+    ns_ = 100 if run.tier == "quick" else 500
     it_s = c07.build_items([make_reservoir_case(rng, run.tier) for _ in range(ns_)], run)
     for it in it_s:
         run.count("reservoir:%s:%s" % (it["case"]["engine"], it["case"]["desc"]["space"]["type"]))
